@@ -143,6 +143,15 @@ def run_batches(oc, r, which, exe, scen, B, env, reqs, pend):
             oc.violations.append(dict(what="probe crashed (exit %d) after %d of %d scenarios: %s" % (rc, len(out), len(batch), err[-400:]), batch=lines))
             break
         for s, line in zip(batch, out):
+            if s[0] == "P":
+                _, consumers, seed = s
+                fl = dict(kv.split("=") for kv in line.partition("|")[2].split())
+                oc.case(("P", consumers, seed), nontrivial=consumers >= 2)
+                oc.stat("burst_consumers_%d" % consumers)
+                if int(fl["got"]) != consumers:
+                    oc.violations.append(dict(what="%d consumers waited, %d items were pushed in one burst, only %s consumers were released with an item (lost wake-up)"
+                                              % (consumers, consumers, fl["got"]), scenario=list(s), build=which))
+                continue
             if s[0] == "Q":
                 _, consumers, items, seed = s
                 fl = dict(kv.split("=") for kv in line.partition("|")[2].split())
@@ -230,11 +239,13 @@ def run(tier):
             scen.append(("D", producers, per, workers, r.randrange(1 << 30), mode))
         for k in range(n // 4):
             scen.append(("Q", r.choice([1, 2, 3, 4]), r.choice([0, 1, 3, 9]), r.randrange(1 << 30)))
+        for k in range(n // 10):
+            scen.append(("P", r.choice([2, 3, 4]), r.randrange(1 << 30)))
         # second build: the window between a wait predicate and the actual blocking is widened (no sanitizer)
         scen2 = []
         for k in range(n // 3):
             if r.random() < 0.5:
-                scen2.append(("Q", r.choice([1, 2, 3, 4]), r.choice([0, 1, 3]), r.randrange(1 << 30)))
+                scen2.append(("Q", r.choice([1, 2, 3, 4]), r.choice([0, 1, 3]), r.randrange(1 << 30)) if r.random() < 0.7 else ("P", r.choice([2, 3]), r.randrange(1 << 30)))
             else:
                 scen2.append(("D", r.choice([1, 2]), r.choice([0, 1, 2, 3]), r.choice([1, 1, 2]), r.randrange(1 << 30), r.choice([0, 1])))
         env = {"TSAN_OPTIONS": "halt_on_error=0:exitcode=66:second_deadlock_stack=1"}
